@@ -25,6 +25,19 @@ def obligations(tier):
     obs.append(dict(name="getopt-memory-safe", harness="../C18/h_getopt.c", entry="h_parse", defs=["NARG=2", "SLEN=4"], unwind=12,
                     unwindset=["strlen.0:8", "strcmp.0:8", "strncmp.0:8", "reset.0:3", "searchopt.0:7", "getopt_setrange.0:7"], timeout=to,
                     claim="getopt() on every argv of <= 2 strings of <= 4 characters: no out-of-bounds access, optind within [1, argc], optarg NULL or inside an argv string", bounds="2 x 4", stubs=["atexit"]))
+    # socket addresses (sock_util.c / sock.c): decoder with hostile length fields, address-string grammar
+    obs.append(dict(name="sockaddr-deserialize", harness="sockaddr.c", entry="h_deser", defs=["DMAX=%d" % (24 if T else 18)], vsrcs=["models/stub_warnp.c"], unwind=30, timeout=to,
+                    claim="sock_addr_deserialize on every byte string of every length 0..DMAX in an exact-size object: NULL unless buflen >= 12 and the embedded namelen == buflen-12; then fields decoded, name object exactly namelen bytes, bytes copied in order; no access outside the buffer", bounds="buflen <= %d" % (24 if T else 18), stubs=["warn -> empty"]))
+    ml = 8 if T else 6
+    for lo, hi in [(0, 4)] + [(k, k) for k in range(5, ml + 1)]:
+        obs.append(dict(name="sock-resolve-len%d-%d" % (lo, hi), harness="sockaddr.c", entry="h_resolve", defs=["MINL=%d" % lo, "MAXL=%d" % hi], vsrcs=["models/stub_warnp.c"], replace=["sock_resolve_host:stub_host"],
+                    unwind=max(hi + 4, 18), timeout=to, flags=["--object-bits", "10"],
+                    claim="sock_resolve on every NUL-terminated string of length %d..%d in an exact-size object: reads only the string, classification '/path' / host / '[literal]:port' as the grammar says, port = strict decimal 1..65535, literal = text between the brackets handed to inet_pton once, sockaddr_in/sockaddr_un contents exact, one-element NULL-terminated list" % (lo, hi),
+                    bounds="length %d..%d, all byte values" % (lo, hi), stubs=["inet_pton -> logging contract stub", "sock_resolve_host -> stub (host names are outside the property)", "strdup -> exact-size model", "strtoimax -> model", "warn -> empty"]))
+    for ul in (107, 108):
+        obs.append(dict(name="sock-resolve-unix-len%d" % ul, harness="sockaddr.c", entry="h_unixlong", defs=["ULEN=%d" % ul], vsrcs=["models/stub_warnp.c"], replace=["sock_resolve_host:stub_host"],
+                    unwind=ul + 4, timeout=to, claim="sock_resolve on every Unix path of %d characters (sun_path holds 108 bytes): %s, no write outside the sockaddr_un" % (ul, "accepted, copied with its NUL" if ul < 108 else "rejected"),
+                    bounds="length %d" % ul, stubs=["warn -> empty"]))
     return obs
 TRUSTED = ["CBMC 6.11 C semantics, pointer/bounds checks", "cadical"]
 ASSUMPTIONS = []
